@@ -154,6 +154,46 @@ def _j(x):
     return list(x) if isinstance(x, tuple) else x
 
 
+def scramble(x):
+    """Edit a returned value in place, the way a caller does who believes the value is his own: elements of lists are
+    edited, the list reversed and extended; dictionaries lose a key, get one, and have their values edited."""
+    if isinstance(x, list):
+        for y in x:
+            scramble(y)
+        x.reverse()
+        x.append("<edited>")
+    elif isinstance(x, dict):
+        for k in list(x):
+            scramble(x[k])
+        if x:
+            x.pop(next(iter(x)))
+        x["<edited>"] = ["<edited>"]
+    elif isinstance(x, set):
+        x.clear()
+    return x
+
+
+def edit_returned_values(p, mothers=(), expand=False):
+    """Ask every public query once and edit what it returned.  A later answer of the parser must not depend on it.
+    -> number of values edited"""
+    n = 0
+    qs = [(q, ()) for q in GLOBAL_QUERIES if q != "global_photos_flag"] + [("list_decay_mother_names", ())]
+    for m in mothers:
+        qs += [("list_decay_modes", (m,)), ("build_decay_chains", (m,))]
+        if expand:
+            qs.append(("expand_decay_modes", (m,)))
+    for q, a in qs:
+        try:
+            with warnings.catch_warnings():
+                warnings.simplefilter("ignore")
+                v = getattr(p, q)(*a)
+        except Exception:  # noqa: BLE001, S112
+            continue
+        scramble(v)
+        n += 1
+    return n
+
+
 def compare_tables(p, exp, check_derived=True):
     """Observed decay tables vs reference semantics -> list of (mechanism, message)."""
     out = []
